@@ -61,6 +61,13 @@ type fakeOP struct {
 	other     []string
 	discovery int
 	jwks      int
+	gate      *gate // part C: token requests are held here until the round's barrier opens
+}
+
+func (f *fakeOP) setGate(g *gate) {
+	f.mu.Lock()
+	f.gate = g
+	f.mu.Unlock()
 }
 
 func s256(v string) string {
@@ -149,6 +156,12 @@ func (f *fakeOP) token(req *http.Request) *http.Response {
 		tr.HasBasic = true
 		tr.BasicUser, _ = url.QueryUnescape(user)
 		tr.BasicPass, _ = url.QueryUnescape(pass)
+	}
+	f.mu.Lock()
+	g := f.gate
+	f.mu.Unlock()
+	if g != nil {
+		g.arrive()
 	}
 	status, answer, payload := f.decide(&tr)
 	tr.Status, tr.Answer = status, answer
